@@ -262,6 +262,26 @@ macro_rules! forms {
             ("from_u128 beyond u64", D::from_u128(1u128 << 100).unwrap(), (2.0 as F).powi(100)),
             ("from_i64 min", D::from_i64(i64::MIN).unwrap(), -(2.0 as F).powi(63)),
             ("from_u64 max", D::from_u64(u64::MAX).unwrap(), (2.0 as F).powi(64)),
+            // the extreme values of every integer type and values that need more than 24 / 53
+            // significant bits: one rounding, to the float type of the number
+            ("from_i8 min", D::from_i8(i8::MIN).unwrap(), i8::MIN as F),
+            ("from_i16 min", D::from_i16(i16::MIN).unwrap(), i16::MIN as F),
+            ("from_u16 max", D::from_u16(u16::MAX).unwrap(), u16::MAX as F),
+            ("from_i32 min", D::from_i32(i32::MIN).unwrap(), i32::MIN as F),
+            ("from_i32 max", D::from_i32(i32::MAX).unwrap(), i32::MAX as F),
+            ("from_i32 2^24+1", D::from_i32(16777217).unwrap(), 16777217i32 as F),
+            ("from_i32 -(2^24+1)", D::from_i32(-16777217).unwrap(), -16777217i32 as F),
+            ("from_i32 123456789", D::from_i32(123456789).unwrap(), 123456789i32 as F),
+            ("from_u32 max", D::from_u32(u32::MAX).unwrap(), u32::MAX as F),
+            ("from_u32 2^24+3", D::from_u32(16777219).unwrap(), 16777219u32 as F),
+            ("from_i64 2^53+1", D::from_i64((1i64 << 53) + 1).unwrap(), ((1i64 << 53) + 1) as F),
+            ("from_i64 max", D::from_i64(i64::MAX).unwrap(), i64::MAX as F),
+            ("from_i64 123456789012345678", D::from_i64(123456789012345678).unwrap(), 123456789012345678i64 as F),
+            ("from_u64 2^53+3", D::from_u64((1u64 << 53) + 3).unwrap(), ((1u64 << 53) + 3) as F),
+            ("from_isize -(2^24+1)", D::from_isize(-16777217).unwrap(), -16777217isize as F),
+            ("from_usize 2^24+1", D::from_usize(16777217).unwrap(), 16777217usize as F),
+            ("from_i128 2^24+1", D::from_i128(16777217).unwrap(), 16777217i128 as F),
+            ("from_u128 2^53+1", D::from_u128((1u128 << 53) + 1).unwrap(), ((1u128 << 53) + 1) as F),
             ("from_f32", D::from_f32(0.375).unwrap(), 0.375),
             ("from_f64", D::from_f64(-2.125).unwrap(), -2.125),
             // values that are not representable in single precision: the conversion must round once,
@@ -289,7 +309,7 @@ macro_rules! forms {
                 });
             }
         }
-        $st.sample(|| json!({"type": tn, "forms": 16 + 2 + 4 + 8 + 3 + 16 + 1, "constants": 35, "operand": parts_to_json(&asv[asv.len() / 2])}));
+        $st.sample(|| json!({"type": tn, "forms": 16 + 2 + 4 + 8 + 3 + 16 + 1, "constants": 53, "operand": parts_to_json(&asv[asv.len() / 2])}));
     }};
 }
 
